@@ -1,7 +1,7 @@
 (* Properties_C11.v -- any pattern string is safely rejected or compiled; matching stays in bounds.
    Statements only; proofs are in ReProps*.v. *)
 From Coq Require Import List NArith ZArith.
-From NV Require Import Bytes GenConsts ReSyntax ReParse ReEmit ReVM ReSem RsetDefs ReProps ReProps2 ReProps3 ReProps4 ReProps5 ReProps6 ReProps7 ReProps8 ReProps10 ReProps11 ReProps12 ReCountBound.
+From NV Require Import Bytes GenConsts ReSyntax ReParse ReEmit ReVM ReSem RsetDefs ReProps ReProps2 ReProps3 ReProps4 ReProps5 ReProps6 ReProps7 ReProps8 ReProps10 ReProps11 ReProps12 ReCountBound UcSpec ReBoundary.
 Import ListNotations.
 
 (* for EVERY byte string: if regcomp accepts it, the emitted program (MARK 0, code, MARK 1, MATCH)
@@ -114,3 +114,22 @@ Print Assumptions C11_count_no_int_overflow.
 
 Example C11_nonvacuous : exists p, regcomp [40; 97; 123; 50; 44; 51; 125; 41]%N = Ok (Some p).
 Proof. eexists. vm_compute. reflexivity. Qed.
+
+(* the character-boundary clause: for EVERY valid UTF-8 pattern string regcomp accepts and EVERY valid UTF-8
+   line (chars cs = the concatenated RFC 3629 encodings of the non-NUL scalar values cs; the line's "\n" is
+   one of them), all flags and depths: each (so, eo) pair regexec reports is -1/-1 or both offsets are byte
+   offsets of character boundaries of the line (off_of cs k = the offset of the k-th character, k <= |cs|).
+   A literal the parser builds is a run of whole pattern characters or -- after the brace skip of a
+   repetition suffix -- starts with a continuation byte and then never matches at a boundary. *)
+Theorem C11_char_boundaries : forall pat p cflg line nsub eflg d subs c pcs cs,
+  Forall scalar pcs -> pat = chars pcs ->
+  Forall scalar cs -> line = chars cs ->
+  regcomp pat = Ok (Some p) -> regexec_d d p cflg line nsub eflg = (Ok (Some subs), c) ->
+  Forall (fun se : Z * Z => se = ((-1)%Z, (-1)%Z) \/
+            (exists k1 k2, k1 <= length cs /\ k2 <= length cs /\ fst se = Z.of_nat (off_of cs k1) /\ snd se = Z.of_nat (off_of cs k2))) subs.
+Proof. exact regexec_boundaries. Qed.
+Print Assumptions C11_char_boundaries.
+
+Example C11_char_boundaries_nonvacuous : exists p c,
+  regcomp (chars [40; 233; 41]%N) = Ok (Some p) /\ regexec p 0%Z (chars [97; 8364; 233; 10]%N) 2 0%Z = (Ok (Some [(4, 6); (4, 6)]%Z), c).
+Proof. eexists. eexists. split; [vm_compute; reflexivity | vm_compute; reflexivity]. Qed.
